@@ -559,7 +559,8 @@ Definition observe (g : cfg) (c h : Z) (handler : M) : M :=
 Definition send_to_fx (t : token) (c receiver x target : Z) : M :=
   doB (bridge_token_to_base t c receiver x) ;; dep_add (t_id t) c x ;;
   (if target =? 1 then doB (base_to_evm t receiver x)
-   else if target =? 2 then doB (base_to_ibc t receiver x) ;; doB (ibc_send t receiver x) ;; exe_add (t_id t) 9 x
+   else if target =? 2 then guard (0 <? x) ;;   (* MsgTransfer needs a positive amount *)
+                            doB (base_to_ibc t receiver x) ;; doB (ibc_send t receiver x) ;; exe_add (t_id t) 9 x
    else ret).
 
 (* BridgeCallHandler: deposit to the receiver, BridgeCallEvm in a cache branch (ConvertCoin each to the receiver,
@@ -601,7 +602,7 @@ Definition pre_cross_chain_ibc (t : token) (sender amt : Z) (native : bool) : M 
    gives it bank metadata BEFORE the middleware runs, so ManyToOne takes the voucher for a base denom of its own, the
    conversion to ERC-20 finds no pair, the acknowledgement is an error and ibc-go core discards everything. *)
 Definition ibc_recv (t : token) (a x : Z) : M :=
-  if is_fx t then doB (send A_ESC a (base_of t) x) ;; dep_add (t_id t) 9 x else fail.
+  if is_fx t then guard (0 <? x) ;; doB (send A_ESC a (base_of t) x) ;; dep_add (t_id t) 9 x else fail.
 
 (* bridgeCall(dstChain c, refund, tokens, amounts, ...) with msg.value = value *)
 Definition pre_bridge_call (g : cfg) (c sender refund value : Z) (toks : list (Z * Z)) (timeout : Z) : M :=
